@@ -2377,6 +2377,15 @@ private:
                 }
             }
             --my_tries;
+            // A decrement that arrived while this put was in flight was only recorded in my_future_decrement,
+            // and a predecessor rejected meanwhile has switched to pull mode: once the count is settled,
+            // somebody has to pull from it (same re-check as in forward_task()).
+            if (check_conditions() && is_graph_active(this->my_graph)) {
+                typedef forward_task_bypass<limiter_node<T, DecrementType>> task_type;
+                d1::small_object_allocator allocator{};
+                graph_task* ftask = allocator.new_object<task_type>(my_graph, allocator, *this);
+                spawn_in_graph_arena(graph_reference(), *ftask);
+            }
         }
         return rtask;
     }
